@@ -67,6 +67,7 @@ Apply(opr, oo) ==
     [] opr[1] = "clear" -> [oo EXCEPT ![s] = ClearR(r)]
     [] opr[1] = "refresh" -> [oo EXCEPT ![s] = RefreshR(r)]
     [] opr[1] = "copy" -> [oo EXCEPT ![opr[3]] = CopyR(r)]
+    [] opr[1] = "setmap" -> [oo EXCEPT ![s] = SetMapR(r, opr[3])]
     [] opr[1] = "new" -> [oo EXCEPT ![s] = NewR(r.kind, opr[3])]
     \* a real constraint method: which terms it adds is free (Constraints.tla decides that); the counter,
     \* the generated names and the number of recorded constraints follow the log
@@ -80,7 +81,7 @@ Apply(opr, oo) ==
     [] opr[1] \in {"ctor", "info"} -> [oo EXCEPT ![opr[3]] = CopyR(r)]
     [] OTHER -> oo
 KnownOp(opr) == opr[1] \in {"setitem", "augadd", "iadd", "isub", "update", "imul", "iadd_scalar", "imul_scalar", "ipow",
-                            "clear", "refresh", "copy", "new", "addcons", "toenum", "bin", "binscalar", "neg", "pow", "div",
+                            "clear", "refresh", "copy", "new", "setmap", "addcons", "toenum", "bin", "binscalar", "neg", "pow", "div",
                             "value", "mulraise", "poke", "ctor", "info"}
 
 \* ---- clauses ----
@@ -111,8 +112,10 @@ RevInverse(sl) == LET m == MapOf(sl.map) rv == MapOf(sl.rev) IN
                   /\ DOMAIN rv = {m[x] : x \in DOMAIN m} /\ \A x \in DOMAIN m : rv[m[x]] = x
                   /\ Len(sl.map) = Cardinality(DOMAIN m) /\ Len(sl.rev) = Cardinality(DOMAIN rv)
 ImplMappingBijectionP == IF First THEN TRUE ELSE
-    \A s \in Slots : IsLabelled(o[s].kind) => /\ MappingBijectionR(o[s]) /\ RevInverse(St.slots[s])
-                                              /\ St.slots[s].nvars = Cardinality(o[s].vars)
+    /\ \A s \in Slots : IsLabelled(o[s].kind) => /\ MappingBijectionR(o[s]) /\ RevInverse(St.slots[s])
+                                                 /\ St.slots[s].nvars = Cardinality(o[s].vars)
+    \* after set_mapping(m) the object's mapping IS m
+    /\ (St.op[1] = "setmap" => o[St.op[2]].map = pred[St.op[2]].map)
 RawCanon(sl) == /\ \A i \in 1..Len(sl.ts) : sl.ts[i][2] # 0 /\ Cardinality(ToSet(sl.ts[i][1])) = Len(sl.ts[i][1])
                 /\ \A i, j \in 1..Len(sl.ts) : i # j => ToSet(sl.ts[i][1]) # ToSet(sl.ts[j][1])
 ImplStoredCanonicalP == IF First THEN TRUE ELSE \A s \in Slots : RawCanon(St.slots[s])
